@@ -103,3 +103,20 @@ Theorem C12_status_first_refuted :
   sets_first [WStatus 201; WSet "Location" "/things/7"] = false.
 Proof. exact status_first_refuted. Qed.
 Print Assumptions C12_status_first_refuted.
+
+(** "a handler error or foreign response type goes to the error path": the tail of every strict wrapper sends exactly the
+    handler's error and a value that is no response object of the operation to the error path, and visits exactly the
+    valid response objects; a wrapper that lets the foreign value fall through is refuted.  (cases_C12_tail ties
+    [deliver] to the seven compiled strict wrappers: handler error, valid response, a strict middleware handing back a
+    foreign value.) *)
+Theorem C12_error_path_iff : forall res, deliver res = OErrorPath <-> (res = RError \/ res = RForeign).
+Proof. exact error_path_iff. Qed.
+Print Assumptions C12_error_path_iff.
+
+Theorem C12_visited_iff : forall res, deliver res = OVisited <-> res = RValid.
+Proof. exact visited_iff. Qed.
+Print Assumptions C12_visited_iff.
+
+Theorem C12_falling_through_refuted : deliver_falling_through RForeign <> OErrorPath.
+Proof. exact falling_through_refuted. Qed.
+Print Assumptions C12_falling_through_refuted.
